@@ -81,7 +81,7 @@ func genMapOrd(rng *rand.Rand, kind string) moScen {
 		case c < 93 && !finished && items == n:
 			finished = true
 			if kind == "stream" && rng.Intn(4) == 0 {
-				s.Steps = append(s.Steps, moStep{A: "srcerr"})
+				s.Steps = append(s.Steps, moStep{A: []string{"srcerr", "srcerr", "srccanc"}[rng.Intn(3)]})
 			} else {
 				s.Steps = append(s.Steps, moStep{A: "end"})
 			}
@@ -204,6 +204,8 @@ func runMapOrd(t *testing.T, s moScen) ([]Ev, bool, string) {
 				q <- srcMsg{1, 0}
 			case "srcerr":
 				q <- srcMsg{2, 0}
+			case "srccanc":
+				q <- srcMsg{3, 0}
 			case "rel":
 				r.emit(Ev{"ev": "rel", "v": st.V})
 				release(st.V)
